@@ -2,6 +2,7 @@ import DilithiumVerif.Lemmas.Sponge
 import DilithiumVerif.Lemmas.KeccakSpec
 import DilithiumVerif.Lemmas.ShakeSmall
 import DilithiumVerif.Lemmas.OneShot
+import DilithiumVerif.Lemmas.Padding
 /-
   C12 — SHAKE-128 and SHAKE-256 equal FIPS 202 for every input and every call pattern.
   Theorems about the sponge loops of the model (the repaired `keccak_squeeze`), generic in the permutation:
@@ -131,5 +132,33 @@ theorem oneshot_eq_incremental (n : Nat) (inp : List Nat) (hn : n < R256) :
     shake256 n n inp inp.length =
       (shake256_absorb KeccakState.init inp inp.length >>= fun st => shake256_finalize st >>= fun st =>
         shake256_squeeze n n st >>= fun r => .ok r.1) := shake256_oneshot_eq_incremental n inp hn
+
+open DV.Padding DV.ShakeTotal DV.ShakeSmall in
+/-- **SHAKE-256 is the FIPS 202 sponge of the padded message**, for every message M and every output length n: the bytes
+    returned by init / absorb(M) / finalize / squeeze(n) are the first n bytes of the output stream (read a rate block,
+    permute, read the next …) of the state reached by absorbing  M ‖ pad  block by block with a permutation after every
+    block, where pad = 0x1F ‖ 00…00 ‖ 0x80 (0x9F when one byte) fills the last block — the byte form of
+    M ‖ 1111 ‖ pad10*1(r, |M| + 4) of FIPS 202 §6.2. -/
+theorem shake256_is_padded_sponge (M : List Nat) (n : Nat) :
+    ∃ st, (shake256_absorb KeccakState.init M M.length >>= shake256_finalize) = .ok st ∧
+      ∃ out st', shake256_squeeze n n st = .ok (out, st') ∧
+        out = (squeezeSpec keccakf R256 (absorbSpec keccakf R256 KeccakState.init.s 0 (M ++ padBytes R256 (M.length % R256))).s 0 n).1 :=
+  DV.Padding.shake256_is_padded_sponge M n
+
+open DV.Padding DV.ShakeTotal DV.ShakeSmall in
+/-- the same padding statement for SHAKE-128 (rate 168), the XOF behind the matrix sampler: after absorb(M) and finalize
+    the next permutation yields the state of the padded message -/
+theorem shake128_finalize_is_padding (M : List Nat) :
+    ∃ st, (shake128_absorb KeccakState.init M M.length >>= shake128_finalize) = .ok st ∧ st.pos = R128 ∧
+      absorbSpec keccakf R128 KeccakState.init.s 0 (M ++ padBytes R128 (M.length % R128)) = { s := keccakf st.s, pos := 0 } :=
+  finalize_is_padding128 M
+
+/-- the padding is never empty, has the length that completes the block, starts with the SHAKE suffix 1111 followed by the
+    first pad bit (0x1F) and ends with the final pad bit (0x80) -/
+theorem padding_shape (rem : Nat) (h : rem < R256) :
+    (DV.Padding.padBytes R256 rem).length = R256 - rem ∧
+    (DV.Padding.padBytes R256 (R256 - 1)) = [0x9F] ∧
+    (rem < R256 - 1 → DV.Padding.padBytes R256 rem = [0x1F] ++ List.replicate (R256 - rem - 2) 0 ++ [0x80]) :=
+  ⟨DV.Padding.padBytes_length R256 rem h, by decide, fun h' => by unfold DV.Padding.padBytes; rw [if_neg (by omega)]⟩
 
 end DV.C12
